@@ -86,6 +86,72 @@ def _abs(bag) -> list:
     return sorted(out)
 
 
+class PristineRef:
+    """Reference results from processes that have never linted anything.
+
+    Forked at job start (before the long-lived object exists); every request is served by a further
+    fork of that pristine server, so process-global singletons (the cached ignore parser, rule-level
+    class attributes) cannot carry state from the used object into the reference.
+    """
+
+    def __init__(self):
+        from multiprocessing.connection import Pipe
+        self.conn, child = Pipe()
+        self.pid = os.fork()
+        if self.pid == 0:
+            self.conn.close()
+            while True:
+                try:
+                    req = child.recv()
+                except EOFError:
+                    os._exit(0)
+                if req is None:
+                    os._exit(0)
+                r, w = os.pipe()
+                gp = os.fork()
+                if gp == 0:
+                    os.close(r)
+                    try:
+                        out = ("ok", _ref_call(req))
+                    except BaseException as e:  # noqa: BLE001
+                        out = ("err", repr(e))
+                    import pickle
+                    with os.fdopen(w, "wb") as f:
+                        pickle.dump(out, f)
+                    os._exit(0)
+                os.close(w)
+                import pickle
+                with os.fdopen(r, "rb") as f:
+                    data = pickle.load(f)
+                os.waitpid(gp, 0)
+                child.send(data)
+        child.close()
+
+    def call(self, req):
+        self.conn.send(req)
+        st, val = self.conn.recv()
+        if st != "ok":
+            raise RuntimeError("reference process failed: " + val)
+        return val
+
+    def close(self):
+        try:
+            self.conn.send(None)
+            os.waitpid(self.pid, 0)
+        except OSError:
+            pass
+
+
+def _ref_call(req):
+    from src.api import Linter
+    kind, root, arg = req
+    os.chdir(root)
+    lin = Linter(project_root=root)
+    if kind == "lint":
+        return _bag(lin.lint(arg), Path(root))
+    return _bag(lin.orchestrator.lint_files([Path(a) for a in arg]), Path(root))
+
+
 def job_history(job: dict) -> dict:
     drive.preload()
     from src.api import Linter
@@ -93,6 +159,7 @@ def job_history(job: dict) -> dict:
     root.mkdir(parents=True, exist_ok=True)
     (root / ".thailint.yaml").write_text(projects.BASE_CONFIG)
     os.chdir(root)
+    ref = PristineRef()
     used = Linter(project_root=str(root))
     steps = []
     for name, a, b in job["hist"]:
@@ -106,17 +173,21 @@ def job_history(job: dict) -> dict:
             continue
         if name == "lintfile":
             call = lambda l: l.lint(str(root / NAMES[a]))  # noqa: E731
+            req = ("lint", str(root), str(root / NAMES[a]))
         elif name == "lintdir":
             call = lambda l: l.lint(str(root))  # noqa: E731
+            req = ("lint", str(root), str(root))
         else:
             fl = [root / NAMES[p] for p in a]
             call = lambda l: l.orchestrator.lint_files(list(fl))  # noqa: E731
+            req = ("files", str(root), [str(x) for x in fl])
         ub = _bag(call(used), root)
-        fb = _bag(call(Linter(project_root=str(root))), root)
+        fb = ref.call(req)
         cu, cf = Counter(canon(v) for v in ub), Counter(canon(v) for v in fb)
         steps.append({"same": cu == cf, "used": _abs(ub), "fresh": _abs(fb),
                       "ghost": [json.loads(k) for k in (cu - cf)][:3],
                       "lost": [json.loads(k) for k in (cf - cu)][:3]})
+    ref.close()
     return {"steps": steps}
 
 
